@@ -21,7 +21,7 @@ var opKindsDepth = []string{
 	"remove", "removeI", "removeI", "removeI", "removeAbsent",
 	"getI", "getAbsent", "clear",
 	"asc", "asc", "asc", "desc", "desc", "zig", "zig", "drain", "drain", "rm2",
-	"deep", "deep", "deep", "deep", "deep", "deep", "bulkremove",
+	"deep", "deep", "deep", "deep", "deep", "deep", "bulkremove", "clone", "switch", "switch",
 }
 
 func genOp(kinds []string) *rapid.Generator[Op] {
